@@ -351,6 +351,43 @@ def install_all(count, violate):
 
     mesh.MeshRegion.addPointAtWallToContours = addPointAtWallToContours
 
+    # ---- C12: the leg tracing of findLegs terminates (decided on logical steps, not on a clock) -------
+    try:
+        import hypnotoad.cases.tokamak as tokmod
+
+        orig_solve = tokmod.solve_ivp
+        orig_fl = tokmod.TokamakEquilibrium.findLegs
+
+        @functools.wraps(orig_solve)
+        def counted_solve_ivp(*a, **k):
+            st = getattr(_tl, "leg_trace", None)
+            if st is not None:
+                st["steps"] += 1
+                if st["steps"] > st["limit"]:
+                    violate("C12.findLegs_terminates", {"what": "leg traced for %d steps (%d x the perimeter of the psi domain) without reaching the wall" % (st["steps"], 40), "xpoint": st["xpoint"]})
+                    _tl.leg_trace = None
+                    # the only contract that raises: there is no other way out of an endless loop
+                    raise RuntimeError("verif monitor: findLegs traced a leg for %d steps without reaching the wall" % st["steps"])
+            return orig_solve(*a, **k)
+
+        @functools.wraps(orig_fl)
+        def findLegs(self, xpoint, radius=0.01, step=0.01):
+            count("C12.findLegs_terminates")
+            try:
+                per = 2.0 * ((float(self.Rmax) - float(self.Rmin)) + (float(self.Zmax) - float(self.Zmin)))
+                _tl.leg_trace = {"steps": 0, "limit": int(40 * per / step) + 100, "xpoint": [float(xpoint.R), float(xpoint.Z)]}
+            except Exception:  # noqa: BLE001
+                _tl.leg_trace = None
+            try:
+                return orig_fl(self, xpoint, radius=radius, step=step)
+            finally:
+                _tl.leg_trace = None
+
+        tokmod.solve_ivp = counted_solve_ivp
+        tokmod.TokamakEquilibrium.findLegs = findLegs
+    except Exception:  # noqa: BLE001
+        count("C12.findLegs_terminates#monitor_error")
+
     # ---- C13: ParallelMap returns one result per task ----------------------------------------------------
     import hypnotoad.utils.parallel_map as pmod
 
